@@ -7,7 +7,7 @@ Import ListNotations.
 Open Scope Z_scope.
 
 (* (kind, byte-string arguments, integer arguments, observed code, observed byte strings) *)
-Definition case := (Z * list (list Z) * list Z * Z * list (list Z))%type.
+Definition case := (Z * list packed * list Z * Z * list packed)%type.
 
 Definition lists_eqb (a b : list (list Z)) : bool := list_eqb zlist_eqb a b.
 Definition xn (sd : Z) : nat := if sd =? 0 then 0%nat else 8%nat.
@@ -15,6 +15,7 @@ Definition pair_list (p : list Z * list Z) : list (list Z) := [fst p; snd p].
 
 Definition ok (c : case) : bool :=
   let '(kind, bs, zs, code, outs) := c in
+  let bs := map unpack bs in let outs := map unpack outs in
   match kind, bs, zs with
   | 0, [key; pt], [sd] =>                                   (* MessageKey *)
       (code =? 0) && lists_eqb [x_message_key key pt (side_of sd)] outs
